@@ -2473,6 +2473,30 @@ class PyCdlib:
 
         self._initialized = True
 
+    def _open_fp_checked(self, fp):
+        # type: (IO) -> None
+        """
+        An internal method to open an existing ISO, making sure that a damaged
+        ISO is reported as such.  The parsers check what they can and raise a
+        PyCdlibInvalidISO themselves, but truncated or inconsistent structures
+        can also surface as low-level errors (a short read handed to
+        struct.unpack, an extent that is not in a lookup table, a negative
+        seek, ...); those are all translated, and the object is left as it was.
+
+        Parameters:
+         fp - The file object containing the ISO to open up.
+        Returns:
+         Nothing.
+        """
+        try:
+            self._open_fp(fp)
+        except pycdlibexception.PyCdlibException:
+            self._initialize()
+            raise
+        except (struct.error, LookupError, ValueError, ArithmeticError) as e:
+            self._initialize()
+            raise pycdlibexception.PyCdlibInvalidISO('Invalid or corrupt ISO (%s: %s)' % (type(e).__name__, e))
+
     def _get_and_write_fp(self, iso_path, outfp, blocksize):
         # type: (bytes, BinaryIO, int) -> None
         """
@@ -4248,7 +4272,7 @@ class PyCdlib:
         fp = open(filename, mode)  # pylint: disable=consider-using-with,unspecified-encoding
         self._managing_fp = True
         try:
-            self._open_fp(fp)
+            self._open_fp_checked(fp)
         except Exception:
             fp.close()
             raise
@@ -4270,7 +4294,7 @@ class PyCdlib:
         if self._initialized:
             raise pycdlibexception.PyCdlibInvalidInput('This object already has an ISO; either close it or create a new object')
 
-        self._open_fp(fp)
+        self._open_fp_checked(fp)
 
     def get_file_from_iso(self, local_path, **kwargs):
         # type: (str, Union[str, int]) -> None
